@@ -49,12 +49,19 @@ def load_module_ast(relpath):
 def find_function(relpath, qualname):
     """Return the FunctionDef for ``qualname`` (``f``, ``Class.f`` or ``f.<locals>.g``)."""
     tree, text = load_module_ast(relpath)
+    want_setter = qualname.endswith("@setter")
+    if want_setter:
+        qualname = qualname[:-len("@setter")]
     parts = [p for p in qualname.split(".") if p != "<locals>"]
     node = tree
-    for p in parts:
+    for pi, p in enumerate(parts):
         found = None
         for child in ast.walk(node) if isinstance(node, (ast.FunctionDef, ast.AsyncFunctionDef)) else node.body:
             if isinstance(child, (ast.FunctionDef, ast.ClassDef)) and child.name == p and child is not node:
+                if pi == len(parts) - 1 and isinstance(child, ast.FunctionDef):
+                    is_setter = any(isinstance(d, ast.Attribute) and d.attr == "setter" for d in child.decorator_list)
+                    if is_setter != want_setter:
+                        continue
                 found = child
                 break
         if found is None:
@@ -261,6 +268,7 @@ EXC_PARENT = {
     "SortingError": "Exception",
     "OutsideException": "Exception",
     "InvalidFolderNameFormat": "Exception",
+    "ValueError:runs": "ValueError",  # modelling class: ValueError raised by the sub/superrun bookkeeping
     "Any": "Exception",  # an unknown exception raised by abstracted code
 }
 
@@ -408,8 +416,16 @@ class ArrT(T):
 
 
 class ObjT(T):
-    def __init__(self, cls=None, **attrs):
-        self.cls, self.attrs = cls, attrs
+    def __init__(self, cls=None, model=None, **attrs):
+        self.cls, self.attrs, self.model = cls, attrs, model
+
+
+class ClassModel:
+    """How attribute reads / writes / method calls on instances of a class are treated."""
+
+    def __init__(self, props=None, setters=None, methods=None, len_handler=None):
+        self.props, self.setters, self.methods = props or {}, setters or {}, methods or {}
+        self.len_handler = len_handler
 
 
 class ListT(T):
@@ -502,12 +518,12 @@ class Engine:
         d = {k: self.resolve(v, st.heap) for k, v in st.env.items()}
         if extra:
             d.update(extra)
-        ns = Namespace(**d)
+        ns = Namespace(d)
         if entry is not None:
-            ns.__dict__["old"] = Namespace(**{k: self.resolve(v, entry.heap) for k, v in entry.env.items()})
+            ns.__dict__["old"] = Namespace({k: self.resolve(v, entry.heap) for k, v in entry.env.items()})
             # entry bindings resolved against the *current* heap (array contents now)
-            ns.__dict__["arg"] = Namespace(**{k: self.resolve(v, st.heap) for k, v in entry.env.items()})
-        ns.__dict__["ghost"] = Namespace(**st.ghost)
+            ns.__dict__["arg"] = Namespace({k: self.resolve(v, st.heap) for k, v in entry.env.items()})
+        ns.__dict__["ghost"] = Namespace(st.ghost)
         return ns
 
     # -- obligations ----------------------------------------------------------------
@@ -883,6 +899,9 @@ class Engine:
             lo_c = None if lo is None else _const_int(lo)
             hi_c = None if hi is None else _const_int(hi)
             return base[lo_c:hi_c]
+        if isinstance(base, Opq):
+            f = z3.Function("getslice", V, V, V, V)
+            return Opq(f(base.t, self.to_v(lo if lo is not None else PNONE), self.to_v(hi if hi is not None else PNONE)))
         raise Unsupported(f"slice of {type(base).__name__}")
 
     def index(self, base, idx, st, fr, k, node):
@@ -1210,9 +1229,35 @@ class Engine:
                 return self.ex(s.body, s1, fr, k)
             if z3.is_false(c):
                 return self.ex(s.orelse, s1, fr, k)
-            self.ex(s.body, s1.assume(c), fr, k)
-            self.ex(s.orelse, s1.assume(z3.Not(c)), fr, k)
+            for branch, cond in ((s.body, c), (s.orelse, z3.Not(c))):
+                if self.known_false(cond, s1):
+                    continue
+                n_vcs = len(self.vcs)
+                try:
+                    self.ex(branch, s1.assume(cond), fr, k)
+                except Unsupported:
+                    # a construct outside the subset on a path that cannot be taken is harmless
+                    if not self.infeasible(s1.assume(cond)):
+                        raise
+                    del self.vcs[n_vcs:]
         return self.ev(s.test, st, fr, cont)
+
+    def known_false(self, cond, st):
+        """Cheap syntactic pruning: the negation of ``cond`` is literally on the path condition."""
+        neg = z3.simplify(z3.Not(cond))
+        for h in st.pc[-40:]:
+            if h.eq(neg) or z3.simplify(h).eq(neg):
+                return True
+        return False
+
+    def infeasible(self, st):
+        s = z3.Solver()
+        s.set("timeout", 3000)
+        for h in st.pc:
+            s.add(h)
+        for a in str_axioms():
+            s.add(a)
+        return s.check() == z3.unsat
 
     def ex_Return(self, s, st, fr, k):
         if s.value is None:
